@@ -198,6 +198,8 @@ func underScheduler(r *result, f func()) {
 		s.Level = []uint32{0, 2, 16}[t.Draw(3)]
 	}
 	s.MaxSteps = 3000000
+	s.AllWorkers = true
+	s.YieldBudget = 15000 // (a fraction of a second of hand-offs per compile, seven compiles per case; the rest of a long compile runs at native speed)
 	s.Add(func() {
 		defer func() {
 			if p := recover(); p != nil {
